@@ -1,5 +1,7 @@
 package main
 
 func init() {
+	reg("C18", propCfg{Pkg: "props", Quick: tierCfg{12, 700}, Thorough: tierCfg{14, 30000}, MemGB: 8})
+	reg("C01", propCfg{Pkg: "props", Quick: tierCfg{12, 500}, Thorough: tierCfg{14, 20000}})
 	reg("C19", propCfg{Pkg: "props", Quick: tierCfg{4, 5000}, Thorough: tierCfg{14, 150000}})
 }
